@@ -69,7 +69,16 @@ def ts_to_date(timestamp):
 # Converts date to timestamp of the midnight in seconds, in the given timezone, or UTC by default.
 def date_to_ts(date, timezone=None):
   ts = (date - DATE_EPOCH).total_seconds()
-  return ts if not timezone else ts - timezone.offset(ts * 1000).total_seconds()
+  if not timezone:
+    return ts
+  # The midnight is a local time, and the offset in force then differs from the one in force at
+  # `ts` (the UTC midnight) when a transition lies in between; so settle the offset in two steps.
+  guess = ts - timezone.offset(ts * 1000).total_seconds()
+  result = ts - timezone.offset(guess * 1000).total_seconds()
+  if timezone.offset(result * 1000) == timezone.offset(guess * 1000):
+    return result
+  # The local midnight is skipped by a transition: the later candidate is the one within the date.
+  return max(guess, result)
 
 # Parses a datetime in the ISO format, YYYY-MM-DDTHH:MM:SS.mmmmmm+HH:MM. Most parts are optional;
 # see https://pypi.org/project/iso8601/ for details. Returns a timestamp in seconds.
